@@ -2284,9 +2284,13 @@ XSLTEngineImpl::cloneToResultTree(
 
                 XalanDOMString&     theNewName = theNameGuard.get();
 
+                // (A namespace node is an attribute here, too.  It is not
+                // in a namespace in this sense: copying it adds the
+                // declaration it stands for.)
                 if (theNamespace.empty() == false &&
                     thePrefix.empty() == false &&
-                    equals(thePrefix, DOMServices::s_XMLString) == false)
+                    equals(thePrefix, DOMServices::s_XMLString) == false &&
+                    equals(thePrefix, DOMServices::s_XMLNamespace) == false)
                 {
                     const XalanDOMString* const     theExistingPrefix =
                         getResultPrefixForNamespace(theNamespace);
